@@ -23,6 +23,10 @@ def run(prop, tier, seed, ctx):
         ctx.add_tlc(res, "all histories " + cfg)
         for r in res.records:
             hists[json.dumps(r["hist"])] = r
+    # histories of EVERY length: with the contract's part of the state as TLC's VIEW the reachable set is finite (51 states)
+    ures = tlc.run("MC_Grading", "MC_Grading_unbounded.cfg", workers=2, timeout=300)
+    tlc.require_ok(ures, "MC_Grading_unbounded.cfg")
+    ctx.add_tlc(ures, "PristineAtStart for histories of unbounded length over the whole script / submission library (VIEW <<dirty, leakSeen>>)")
     # a slot the model of the code does NOT reset: the interpreter's own module objects, which executed student code can
     # assign to.  TLC shows the contract failing on the model; the histories are replayed like all others.
     res = tlc.run("MC_Grading", "MC_Grading_realmods_q.cfg", workers=1, timeout=600, cont=True)
